@@ -5,6 +5,10 @@
 set -u
 patch=$1; shift
 V=/tmp/wa/verif-seedtest; R=/tmp/seedrepo
+# the two scratch worktrees are created on first use (remove them when done:
+#   git -C /repo worktree remove --force /tmp/seedrepo; git -C /verif worktree remove --force /tmp/wa/verif-seedtest)
+[ -d $R ] || git -C /repo worktree add -q --detach $R HEAD
+[ -d $V ] || { mkdir -p /tmp/wa; git -C /verif worktree add -q --detach $V HEAD; }
 git -C $R checkout -q -- . ; git -C $R clean -fdq -e target; git -C $R checkout -q --detach $(git -C /repo rev-parse HEAD)
 git -C $V checkout -q -- . ; git -C $V checkout -q --detach $(git -C /verif rev-parse HEAD)
 git -C $R apply "$patch" || { echo "patch does not apply"; exit 2; }
